@@ -30,6 +30,43 @@ type combCase struct {
 	goShape  string
 }
 
+
+// lastDiagLeaf walks the rule left to right with short circuit using the stand-alone outcomes and returns the index
+// of the last reached comparison that has a diagnostic (-1 if none); ok=false when a failure/panic is met.
+func lastDiagLeaf(n *Node, obs []Obs, next *int, last *int) (verdict bool, ok bool) {
+	switch n.T {
+	case NParen:
+		v, ok := lastDiagLeaf(n.Q, obs, next, last)
+		if n.Neg {
+			v = !v
+		}
+		return v, ok
+	case NLogic:
+		l, ok := lastDiagLeaf(n.L, obs, next, last)
+		if !ok {
+			return false, false
+		}
+		if l == n.Or {
+			// short circuit: skip the leaves of the right operand
+			var skip []*Node
+			n.R.Leaves(&skip)
+			*next += len(skip)
+			return l, true
+		}
+		return lastDiagLeaf(n.R, obs, next, last)
+	default:
+		i := *next
+		*next++
+		if obs[i].D != "-" {
+			*last = i
+		}
+		if obs[i].E != "-" {
+			return false, false
+		}
+		return obs[i].V, true
+	}
+}
+
 func (c *Ctx) mkComb(root *Node, obj *AV, canon bool) *combCase {
 	cc := &combCase{root: root, obj: obj, text: c.style(canon).Render(root)}
 	if c.Res.Property != "C01" {
@@ -370,6 +407,16 @@ func checkC02(c *Ctx) {
 		if cc.whole.Line() != cc.expect {
 			c.violate(cc.viol("a comparison inside a compound rule does not yield what it yields as a stand-alone rule", cc.expect))
 			return
+		}
+		// the diagnostic must describe the comparison it belongs to: its text is the text that comparison produces alone
+		next, last := 0, -1
+		if _, ok := lastDiagLeaf(cc.root, cc.leafObs, &next, &last); ok && last >= 0 && cc.whole.D != "-" {
+			c.count("diagnostic_text_compared")
+			if cc.whole.DbgText != cc.leafObs[last].DbgText {
+				c.violate(cc.viol("the diagnostic of a comparison inside a compound rule differs from its diagnostic as a stand-alone rule",
+					"LastDebugErr().Error() = "+cc.leafObs[last].DbgText+" (that of "+cc.leafText[last]+" alone), got "+cc.whole.DbgText))
+				return
+			}
 		}
 		c.sample(map[string]string{"rule": cc.text, "object": cc.obj.Pretty(), "expected": cc.expect})
 	})
